@@ -271,6 +271,27 @@ func runC10(script *Scenario, d C10Disturbance) (*c10Result, error) {
 			}
 		}
 	}
+	// situation of open finding O8: a paused, unavailable revision whose status lists no controlled object (an empty
+	// controllerOf is not serialised, so the deployment controller reads it as "not reported yet") waits for archival for ever
+	// unless a newer revision becomes Available
+	for _, kind := range []string{"ObjectSet", "ClusterObjectSet"} {
+		keys := r.W.ListKeys(engine.PKOGroup, kind)
+		newestAvailable := false
+		var newestRev int64 = -1
+		for _, k := range keys {
+			o := r.W.Store.PeekNoCopy(k)
+			if rv := asInt(asMap(o["status"])["revision"]); rv > newestRev {
+				newestRev, newestAvailable = rv, condTrue(o, "Available")
+			}
+		}
+		for _, k := range keys {
+			o := r.W.Store.PeekNoCopy(k)
+			if lifecycleOf(o) == "Paused" && condTrue(o, "Paused") && !condTrue(o, "Available") && !newestAvailable &&
+				asInt(asMap(o["status"])["revision"]) < newestRev && len(controllerOfList(asMap(o["status"]))) == 0 {
+				r.Labels["paused-unavailable-revision-controlling-nothing"] = true
+			}
+		}
+	}
 	if ok {
 		// one more full round must change nothing
 		for _, kind := range []string{"Package", "ObjectDeployment", "ObjectSet", "ObjectSetPhase"} {
@@ -334,6 +355,8 @@ func checkC10(ref, got *c10Result) error {
 		key := "end-state-differs-from-undisturbed-run"
 		if got.labels["paused-objectset-with-unpaused-later-delegated-phase"] && !ref.labels["paused-objectset-with-unpaused-later-delegated-phase"] {
 			key += ":paused-objectset-never-reaches-later-delegated-phase"
+		} else if got.labels["paused-unavailable-revision-controlling-nothing"] && !ref.labels["paused-unavailable-revision-controlling-nothing"] {
+			key += ":unavailable-revision-controlling-nothing-never-archived"
 		}
 		return Violf("C10", key, "the end state differs from the undisturbed run: %s (all differing objects: %v)", firstDiff(ref.proj, got.proj), others)
 	}
